@@ -142,7 +142,8 @@ func runSchedule(r *corr.Run, scn []opSpec, choose chooser, allVerdicts bool) *r
 		} else {
 			line = fmt.Sprintf("env %d %s %s", x.threads[a.t].mt, a.verdict, hint)
 		}
-		ask("ocache.step", line, p.String()+" en="+x.enabledThreads())
+		// `inv=ok`: the model evaluates the Lean invariant (OCache/Check.lean) on the state it reached
+		ask("ocache.step", line, p.String()+" en="+x.enabledThreads()+" inv=ok")
 		res.parks[parkClass(p)] = true
 		if p.kind == pkDone {
 			spawn()
